@@ -145,3 +145,20 @@ func zzH_C02_exact() {
 		zzv.Assert("nomatch-shape", res.Start == -1 && res.End == -1 && res.Score == 0)
 	}
 }
+
+// ZZTermMatches is the documented meaning of one search term on a line (kinds: 0 exact substring,
+// 1 substring at word boundaries, 2 prefix, 3 suffix, 4 equal, 5 fuzzy subsequence); exported for
+// the query-level harnesses of package fzf. pat must satisfy the Algo preconditions.
+func ZZTermMatches(kind int, text []rune, pat []rune, cs, norm bool) bool {
+	n, m := len(text), len(pat)
+	if kind == 5 {
+		return zzSubseq(text, pat, 0, n, cs, norm)
+	}
+	any := false
+	for at := 0; at+m <= n; at++ {
+		if zzOccursAt(text, pat, at, cs, norm) && zzAnchorOK(kind, text, pat, at) {
+			any = true
+		}
+	}
+	return any
+}
